@@ -265,6 +265,8 @@ class YamlItem(pytest.Item):
                 self.generate_performance_tables(tracer)
 
     def print_computation_log(self, tracer, aggregate, max_depth) -> None:
+        if max_depth is None:
+            max_depth = sys.maxsize
         tracer.print_computation_log(aggregate, max_depth)
 
     def generate_performance_graph(self, tracer) -> None:
